@@ -23,6 +23,7 @@ EXPLANATION = (
     "unconditionally, Some(..) is returned only under every field's flag. (R1.6) every override of constant() has an "
     "audited shape (cardinality-1 guard, pure delegation, or Bound variant whose matches arm is Term::eq). (R1.7) "
     "insert_all/remove_all count only `true` results; remove_matching/retain_matching collect before removing. "
+    "(R1.8) the ordered index sets are borrowed mutably only in insert/remove of the four stores (who-may-write). "
     "NOT decided: correctness of BTreeSet/HashMap/Term::eq themselves, agreement of results between implementations.")
 
 STORES = [
